@@ -88,9 +88,27 @@ class Compiler(object):
         self._stack = []
         self._root = None
         self._tag_depth = None
+        self.tag_all_depths = False
         self.depth = None         # None: abstract letters for nested references; int: exact unrolling to that depth
         self._has_nest = {}
         self.notes = []
+
+    # nesting budget: an int (the same for every recursive reference) or {abstract letter: remaining levels}
+    def _budget(self, letter):
+        d = self.depth
+        return d.get(letter, 0) if isinstance(d, dict) else d
+
+    def _descend(self, letter):
+        d = self.depth
+        if isinstance(d, dict):
+            nd = dict(d)
+            nd[letter] = nd.get(letter, 0) - 1
+            return nd
+        return d - 1
+
+    def _dkey(self):
+        d = self.depth
+        return tuple(sorted(d.items())) if isinstance(d, dict) else d
 
     def contains_nest(self, g):
         r = self._has_nest.get(g.uid)
@@ -254,8 +272,8 @@ class Compiler(object):
         """marks: {uid: name} wrap that node's extent in <name ... >name; tags: {uid of an Or: [mark per alternative]}"""
         marks = marks or {}
         tags = tags or {}
-        key = (g.uid, self.depth if self.contains_nest(g) else None)
-        plain = not marks and not (tags and self.depth == self._tag_depth)
+        key = (g.uid, self._dkey() if self.contains_nest(g) else None)
+        plain = not marks and not (tags and (self.depth == self._tag_depth or self.tag_all_depths))
         if plain and key in self._memo:
             return self._memo[key]
         if g.skip_ws:
@@ -294,8 +312,8 @@ class Compiler(object):
             return alg.seq_all([self.compile(c, marks, tags) for c in g.children])
         if k == 'or':
             subs = [self.compile(c, marks, tags) for c in g.children]
-            if g.uid in tags and (self.depth is None or self.depth == self._tag_depth):
-                subs = [alg.prefix_mark(s, t) for s, t in zip(subs, tags[g.uid])]
+            if g.uid in tags and (self.depth is None or self.depth == self._tag_depth or self.tag_all_depths):
+                subs = [alg.prefix_mark(s, t) if t else s for s, t in zip(subs, tags[g.uid])]
             return alg.longest_all(subs)
         if k == 'first':
             subs = [self.compile(c, marks, tags) for c in g.children]
@@ -311,14 +329,16 @@ class Compiler(object):
                 raise OutOfGrammarSubset('repetition of a body that can succeed without consuming: %r' % (g,))
             return alg.star(body) if k == 'star' else alg.plus(body)
         if k == 'forward' and self.target(g).uid in self.nest and self.depth is not None:
-            if self.depth == 0:
+            letter = self.nest[self.target(g).uid]
+            if self._budget(letter) <= 0:
                 # bottom of the unrolling: no nested value here (Cons empty, always fails)
                 return marked.Sem(alg.empty_fail(), alg.all_strings())
-            self.depth -= 1
+            saved = self.depth
+            self.depth = self._descend(letter)
             try:
                 return self.compile(self.target(g), marks, tags)
             finally:
-                self.depth += 1
+                self.depth = saved
         if k == 'forward' and self.target(g).uid in self.nest:
             letter = self.abstract_letter(self.nest[self.target(g).uid])
             L = marked.DFA()
@@ -328,3 +348,120 @@ class Compiler(object):
         if k in ('combine', 'suppress', 'group', 'pass', 'forward'):
             return self.compile(g.children[0], marks, tags)
         raise OutOfGrammarSubset('node kind %s' % k)
+
+
+class CtxCompiler(Compiler):
+    """grammars with implicit whitespace skipping and Keyword (hszinc.grid_filter): see hv/peg/ctx.py"""
+    WS = CS.of(' ', '\t', '\n', '\r')
+
+    def __init__(self, roots, extra_sets=(), nest=None, abstract=0):
+        from . import ctx
+        ident = None
+        for r in roots:
+            for g in walk(r):
+                if g.kind == 'keyword':
+                    cs = CS([(ord(c), ord(c)) for c in g.chars])
+                    if ident is not None and ident != cs:
+                        raise OutOfGrammarSubset('keywords with different identifier characters')
+                    ident = cs
+        ident = ident or CS()
+        Compiler.__init__(self, roots, extra_sets=list(extra_sets) + [self.WS, ident], nest=nest, abstract=abstract)
+        self.ident = ident
+        self.alg = ctx.CtxAlgebra(self.nclasses, abstract, self.class_ids(ident) if ident else ())
+        self._ws = None
+        self._pre = True
+
+    def _sets_of(self, g):
+        if g.kind == 'keyword':
+            return [CS.of(c) for c in g.text]
+        return Compiler._sets_of(self, g)
+
+    def ws_star(self):
+        if self._ws is None:
+            self._ws = self.alg.from_language(self.lang(NA.star(NA.cset(self.WS))))
+        return self._ws
+
+    def lang_ctx(self, nfa, kappa='N'):
+        """a test language, at the start of the text (context: no identifier character before)"""
+        d = self.lang(nfa)
+        k = self.alg.KN if kappa == 'N' else self.alg.KI
+        e = marked.DFA()
+        e.delta = [dict(r) for r in d.delta] + [{k: d.start}]
+        e.start = len(e.delta) - 1
+        e.finals = set(d.finals)
+        return marked.minimize(marked.trim(e))
+
+    def compile(self, g, marks=None, tags=None, pre=True):
+        marks = marks or {}
+        tags = tags or {}
+        key = (g.uid, self._dkey() if self.contains_nest(g) else None, bool(pre and g.skip_ws and g.call_pre))
+        plain = not marks and not (tags and (self.depth == self._tag_depth or self.tag_all_depths))
+        if plain and key in self._memo:
+            return self._memo[key]
+        if g.uid in self._stack and self.depth is None:
+            raise OutOfGrammarSubset('recursive grammar without nesting abstraction at %r' % (g,))
+        self._stack.append(g.uid)
+        try:
+            s = self._compile(g, marks, tags)
+        finally:
+            self._stack.pop()
+        if g.uid in marks:
+            s = self.alg.wrap(s, marks[g.uid])
+        if pre and g.skip_ws and g.call_pre:
+            s = self.alg.seq(self.ws_star(), s)
+        if plain:
+            self._memo[key] = s
+        return s
+
+    def _compile(self, g, marks, tags):
+        alg = self.alg
+        k = g.kind
+        if k == 'keyword':
+            return alg.keyword(self.lang(NA.lit(g.text)))
+        if k == 'and':
+            subs = [self.compile(c, marks, tags, pre=(i > 0)) for i, c in enumerate(g.children)]
+            return alg.seq_all(subs)
+        if k == 'or':
+            subs = [self.compile(c, marks, tags, pre=True) for c in g.children]
+            if g.uid in tags and (self.depth is None or self.depth == self._tag_depth or self.tag_all_depths):
+                subs = [alg.prefix_mark(s, t) if t else s for s, t in zip(subs, tags[g.uid])]
+            return alg.longest_all(subs)
+        if k == 'first':
+            subs = [self.compile(c, marks, tags, pre=True) for c in g.children]
+            if g.uid in tags and (self.depth is None or self.depth == self._tag_depth or self.tag_all_depths):
+                subs = [alg.prefix_mark(s, t) if t else s for s, t in zip(subs, tags[g.uid])]
+            out = subs[0]
+            for s in subs[1:]:
+                out = alg.first(out, s)
+            return out
+        if k == 'opt':
+            return alg.optional(self.compile(g.children[0], marks, tags, pre=False))
+        if k in ('star', 'plus'):
+            body = self.compile(g.children[0], marks, tags, pre=True)
+            if alg.nullable(body):
+                raise OutOfGrammarSubset('repetition of a body that can succeed without consuming: %r' % (g,))
+            return alg.star(body) if k == 'star' else alg.plus(body)
+        if k == 'forward' and self.target(g).uid in self.nest and self.depth is not None:
+            letter = self.nest[self.target(g).uid]
+            if self._budget(letter) <= 0:
+                return marked.Sem(alg.empty_fail(), alg.all_strings())
+            saved = self.depth
+            self.depth = self._descend(letter)
+            try:
+                return self.compile(self.target(g), marks, tags, pre=False)
+            finally:
+                self.depth = saved
+        if k in ('combine', 'suppress', 'group', 'pass', 'forward'):
+            return self.compile(g.children[0], marks, tags, pre=False)
+        if k in ('regex', 'lit', 'caseless', 'word1', 'empty', 'end'):
+            return Compiler._compile(self, g, marks, tags)
+        raise OutOfGrammarSubset('node kind %s' % k)
+
+    def compile_depth(self, g, depth, marks=None, tags=None):
+        saved = self.depth
+        self.depth = depth
+        self._tag_depth = depth
+        try:
+            return self.compile(self.target(g) if g.kind == 'forward' else g, marks, tags, pre=True)
+        finally:
+            self.depth = saved
